@@ -18,7 +18,7 @@ RULE = ("as C11 plus an edge-case stream (a single variable, isolated variables,
         "without initial state, both visiting orders); all calls of a run are executed IN SEQUENCE IN ONE PROCESS through an "
         "-fsanitize=address,undefined build of the extension made from /repo's C sources; outputs are compared with the model; "
         "non-trivial = at least two spins and one coupling; distinct by canonical JSON")
-THEOREMS = ""
+THEOREMS = "C17_flat_access C17_row_start C17_quso_access C17_arrays C17_puso_access C17_picked_index C17_states_block C17_state_shape"
 MODELLED = ("the compiled extension itself is outside the proof: the sanitizer run is runtime evidence for the binary (compiler, "
             "libc, libm and the CPython C-API are not modelled); leaks are not undefined behaviour and are not reported")
 TRUSTED = ["clang 14 AddressSanitizer + UndefinedBehaviorSanitizer build of the extension from /repo's C sources",
@@ -95,6 +95,14 @@ def run_impl(case):
     # the in-process run (plain build) gives the outputs to compare with the model; the sanitized batch is run once,
     # lazily, over the whole case list by `extra_run` below
     return c11.run_impl(case)
+
+
+def static_checks():
+    """the C sources' array accesses and allocations, regenerated from /repo, against the table the bounds lemmas cover"""
+    import c_access
+    problems, cur = c_access.drift()
+    STATE["c_accesses"] = {f: len(v) for f, v in cur.items()}
+    return problems
 
 
 def batch_check(cases, outs):
